@@ -13,7 +13,7 @@ ErrLists == { <<>>, <<[code |-> 503, pos |-> 2]>>, <<[code |-> 404, pos |-> 1]>>
               <<[code |-> 503, pos |-> 1], [code |-> 503, pos |-> 2]>> }      \* one code, two positions: shared counter
 VARIABLES errs, f, counters, nth, last, nreq
 vars == <<errs, f, counters, nth, last, nreq>>
-Init == /\ errs \in ErrLists /\ f \in {Absent, 1, 2}
+Init == /\ errs \in ErrLists /\ f \in {Absent, 0, 1, 2}
         /\ counters = [c \in Clients |-> [k \in Codes |-> 0]]
         /\ nth = [c \in Clients |-> [p \in Pos |-> 0]]
         /\ last = [client |-> "", pos |-> 0, status |-> 0, nth |-> 0]
